@@ -58,6 +58,13 @@ T2 = {
         (r"lf0 static vector must be 1", "voice-format fact: the log-F0 stream has vector length 1"),
     "divzero|vocoder::excitation::RingBuffer::<T>::get_mut_with_offset|Rem|0":
         (r"len\(self\.buffer\)", "called only from voiced_frame/unvoiced_frame, which Excitation::get reaches only under ring_buffer.len() > 0", [], [r"^true: Gt\(vocoder::excitation::RingBuffer::<T>::len\(self\.ring_buffer\), 0\)$"]),
+    # (not a site of the pinned tree, where voiced_frame reads lpf[i] element by element - bounds
+    # checks inside kernels are outside this ledger; a prefix slice taken up front is the same
+    # obligation and is audited against the same fact)
+    "index|vocoder::excitation::Excitation::voiced_frame|slice::index|0":
+        (r"slice::index\(lpf, std::ops::RangeTo::RangeTo\{end: vocoder::excitation::RingBuffer::<T>::len\(self\.ring_buffer\)\}\)", "every lpf row has nlpf = ring_buffer.len() elements: Vocoder::new(nlpf) sizes the ring buffer from stream 2's vector length, and the 2-stream placeholder has nlpf = 0 with empty rows (C01-R2)"),
+    "index|vocoder::excitation::Excitation::voiced_frame|slice::index|1":
+        (r"slice::index\(lpf, std::ops::RangeTo::RangeTo\{end: vocoder::excitation::RingBuffer::<T>::len\(self\.ring_buffer\)\}\)", "every lpf row has nlpf = ring_buffer.len() elements (see ordinal 0)"),
     "index|vocoder::generalized::Generalized::gnorm|Vec::index_mut|3":
         (r"RangeFrom\{start: 1\}", "coefficient vectors have nmcp >= 1 elements"),
     "index|vocoder::generalized::Generalized::gnorm|Vec::index|3":
@@ -401,15 +408,18 @@ def run(ctx):
             ctx.fail("C01-R4", fn, "label pipeline", "labels are not mapped one-to-one (adaptors: %s)" % sorted(set(names)), b.loc())
         if inner:
             okk = False
+            nst = p.body("model::Models::<'a>::nstate")
+            nstate_is_count = nst is not None and show(ExprBuilder(nst).local(0)).endswith(".num_states")
+            from ..expr import resolve_upvars as _ru
             for cb in p.nested(fn):
                 ceb = ExprBuilder(cb)
                 for bb, t in cb.calls():
-                    e = ceb.call(t)
+                    e = _ru(p, cb, ceb.call(t))
                     for x in walk(e):
                         if x[0] == "agg" and x[1].endswith("Range::Range"):
                             lo, hi = to_poly(x[2][0]), to_poly(x[2][1])
                             d = hi - lo
-                            if lo == Poly.const(2) and len(d.t) == 1 and "num_states" in repr(d):
+                            if lo == Poly.const(2) and len(d.t) == 1 and list(d.t.values()) == [1] and ("num_states" in repr(d) or (nstate_is_count and "Models::<'a>::nstate" in repr(d))):
                                 okk = True
                 sub = [x[1].rsplit("::", 1)[-1] for bb, t in cb.calls() for x in walk(ceb.call(t)) if x[0] == "call"]
                 if any(n in ("skip", "take", "step_by", "filter", "rev") for n in sub):
